@@ -450,4 +450,44 @@ theorem freeCount_markAll (cs : List Cell) : freeCount (markAll cs) = cs.length 
     obtain ⟨c', _, rfl⟩ := List.mem_map.mp hc
     rfl
 
+/-! ## Stepping the worklist on concrete heaps -/
+
+theorem markLoop_nil (E : Edges) (cs : List Cell) (r : Nat) : markLoop E cs [] r = (cs, r) := by
+  rw [markLoop]
+
+theorem markLoop_atom (E : Edges) (cs : List Cell) (n : Int) (rest : List Val) (r : Nat) :
+    markLoop E cs (.atom n :: rest) r = markLoop E cs rest r := by
+  rw [markLoop]
+
+theorem markLoop_node (E : Edges) (cs : List Cell) (k : Kind) (fs : List (Field × Val)) (rest : List Val) (r : Nat) :
+    markLoop E cs (.node k fs :: rest) r = markLoop E cs (kids E (.node k fs) ++ rest) r := by
+  rw [markLoop]
+
+theorem markLoop_ref_none (E : Edges) {cs : List Cell} {a : Addr} (o : Oid) (rest : List Val) (r : Nat)
+    (h : readCell cs a = none) : markLoop E cs (.ref a o :: rest) r = markLoop E cs rest r := by
+  rw [markLoop]
+  split
+  · rfl
+  · rename_i c hc; rw [h] at hc; cases hc
+
+theorem markLoop_ref_marked (E : Edges) {cs : List Cell} {a : Addr} {c : Cell} (o : Oid) (rest : List Val) (r : Nat)
+    (h : readCell cs a = some c) (hr : c.reachable = true) :
+    markLoop E cs (.ref a o :: rest) r = markLoop E cs rest r := by
+  rw [markLoop]
+  split
+  · rfl
+  · rename_i c' hc
+    rw [h] at hc; cases hc
+    simp [hr]
+
+theorem markLoop_ref_unmarked (E : Edges) {cs : List Cell} {a : Addr} {c : Cell} (o : Oid) (rest : List Val) (r : Nat)
+    (h : readCell cs a = some c) (hr : c.reachable = false) :
+    markLoop E cs (.ref a o :: rest) r = markLoop E (markCell cs a) (c.value :: rest) (r + 1) := by
+  rw [markLoop]
+  split
+  · rename_i hc; rw [h] at hc; cases hc
+  · rename_i c' hc
+    rw [h] at hc; cases hc
+    simp [hr]
+
 end SteelVerif.C04
